@@ -45,10 +45,24 @@ type recorder struct {
 	trace    []byte // one letter per callback
 	scribble bool
 	states   int
+	badState string // first snapshot whose indices are inconsistent
 }
 
 func (r *recorder) see(s *interpreter.State) {
 	r.states++
+	if s != nil && r.badState == "" && len(s.Scripts) > 0 {
+		switch {
+		case s.ScriptIdx < 0 || s.ScriptIdx >= len(s.Scripts):
+			r.badState = fmt.Sprintf("ScriptIdx %d with %d scripts", s.ScriptIdx, len(s.Scripts))
+		case s.OpcodeIdx < -1 || s.OpcodeIdx >= len(s.Scripts[s.ScriptIdx]) || (s.OpcodeIdx == -1 && len(s.Scripts[s.ScriptIdx]) > 0):
+			r.badState = fmt.Sprintf("OpcodeIdx %d in a script of %d opcodes", s.OpcodeIdx, len(s.Scripts[s.ScriptIdx]))
+		default:
+			if s.OpcodeIdx >= 0 {
+				_ = s.Opcode().Name()
+				_ = len(s.RemainingScript())
+			}
+		}
+	}
 	if !r.scribble || s == nil {
 		return
 	}
